@@ -58,7 +58,7 @@ LEVEL_TEXT = (
 )
 LEVEL_NOTE = "Trusted: the lexical reference, the behavioural task-group ownership probe (hv/gen/programs.py World.idle / tg snapshots), interposer, gate scheduler, VirtualLoop."
 
-BODY_EXITS = ("raise-exc", "raise-base", "raise-cancelled", "cancel-self", "raise-keyerror", "raise-timeout", "raise-stopasync", "raise-lookup", "raise-runtime", "raise-assert", "raise-group")
+BODY_EXITS = ("raise-exc", "raise-base", "raise-cancelled", "cancel-self", "raise-keyerror", "raise-timeout", "raise-stopasync", "raise-lookup", "raise-runtime", "raise-assert", "raise-group", "raise-unprintable")
 PROGRAMS = {"quick": 160, "thorough": 5000}
 DFS_CAP = {"quick": 12, "thorough": 60}
 
